@@ -1,0 +1,222 @@
+//! Verification hooks (cargo feature `verif`, off by default).
+//!
+//! Every function here is a no-op unless a [`Controller`] has been installed with
+//! [`install`] on the thread that calls [`Txtpp::run`](crate::Txtpp::run). The hooks
+//! never inject errors and never change a value other than the *order* of collections
+//! whose order is already arbitrary (hash set iteration, `read_dir`).
+use std::cell::RefCell;
+use std::path::{Path, PathBuf};
+use std::sync::Arc;
+
+/// What a pool task does
+#[derive(Debug, Clone, Copy, PartialEq, Eq, Hash, PartialOrd, Ord)]
+pub enum TaskKind {
+    ScanDir,
+    FirstPass,
+    SecondPass,
+}
+
+/// Identity of one pool task
+#[derive(Debug, Clone, PartialEq, Eq, Hash, PartialOrd, Ord)]
+pub struct Task {
+    pub kind: TaskKind,
+    pub path: PathBuf,
+    /// spawn counter on the coordinator thread (1-based)
+    pub seq: u64,
+}
+
+/// Result of a pool task, as far as the hooks can see it
+#[derive(Debug, Clone, PartialEq, Eq)]
+pub enum Outcome {
+    ScanOk,
+    Done,
+    HasDeps(Vec<PathBuf>),
+    Err,
+}
+
+/// The simulator side of the hooks
+pub trait Controller: Send + Sync + 'static {
+    /// coordinator thread: a job is about to be queued on the pool
+    fn task_spawned(&self, t: &Task);
+    /// pool thread: first statement of the job (may block)
+    fn task_begin(&self, t: &Task);
+    /// pool thread: inside a pass, before an output / temp file write (may block)
+    fn task_io(&self, _t: &Task, _op: &'static str) {}
+    /// pool thread: work done, result not yet sent (may block)
+    fn task_end(&self, t: &Task, o: &Outcome);
+    /// pool thread: after the send, or while unwinding
+    fn task_exit(&self, t: &Task, panicked: bool);
+    /// coordinator thread: before every `try_recv` (may block)
+    fn coordinator_poll(&self, done: usize, total: usize, in_drop: bool);
+    /// coordinator thread: channel empty and not done; return true to skip the real sleep
+    fn coordinator_idle(&self, millis: u64) -> bool;
+    /// coordinator thread: a result was taken from the channel
+    fn result_received(&self, o: &Outcome, path: &Path);
+    /// coordinator thread: return the order (indices into `v`) in which to visit `v`
+    fn order_paths(&self, site: &'static str, v: Vec<PathBuf>) -> Vec<usize>;
+    /// coordinator thread: around `ThreadPool::join` in `Drop`
+    fn join(&self, begin: bool);
+}
+
+thread_local! {
+    static CURRENT: RefCell<Option<Arc<dyn Controller>>> = const { RefCell::new(None) };
+    static SEQ: RefCell<u64> = const { RefCell::new(0) };
+    static WORKER: RefCell<Option<(Arc<dyn Controller>, Task)>> = const { RefCell::new(None) };
+}
+
+/// RAII guard returned by [`install`]
+pub struct Installed;
+
+impl Drop for Installed {
+    fn drop(&mut self) {
+        CURRENT.with(|c| *c.borrow_mut() = None);
+    }
+}
+
+/// Install a controller for the calling thread
+pub fn install(c: Arc<dyn Controller>) -> Installed {
+    CURRENT.with(|cur| *cur.borrow_mut() = Some(c));
+    SEQ.with(|s| *s.borrow_mut() = 0);
+    Installed
+}
+
+fn current() -> Option<Arc<dyn Controller>> {
+    CURRENT.with(|c| c.borrow().clone())
+}
+
+/// Handle captured into the job closure
+pub struct Spawned {
+    ctl: Option<Arc<dyn Controller>>,
+    task: Task,
+}
+
+pub fn task_spawned(kind: TaskKind, path: &Path) -> Spawned {
+    let ctl = current();
+    let seq = SEQ.with(|s| {
+        let mut s = s.borrow_mut();
+        *s += 1;
+        *s
+    });
+    let task = Task {
+        kind,
+        path: path.to_path_buf(),
+        seq,
+    };
+    if let Some(c) = &ctl {
+        c.task_spawned(&task);
+    }
+    Spawned { ctl, task }
+}
+
+/// Lives on the pool thread for the duration of the job
+pub struct TaskGuard {
+    ctl: Option<Arc<dyn Controller>>,
+    task: Task,
+}
+
+impl Spawned {
+    /// Called first thing on the pool thread
+    pub fn begin(self) -> TaskGuard {
+        if let Some(c) = &self.ctl {
+            c.task_begin(&self.task);
+            WORKER.with(|w| *w.borrow_mut() = Some((c.clone(), self.task.clone())));
+        }
+        TaskGuard {
+            ctl: self.ctl,
+            task: self.task,
+        }
+    }
+}
+
+impl TaskGuard {
+    pub fn end(&self, o: Outcome) {
+        if let Some(c) = &self.ctl {
+            WORKER.with(|w| *w.borrow_mut() = None);
+            c.task_end(&self.task, &o);
+        }
+    }
+}
+
+impl Drop for TaskGuard {
+    fn drop(&mut self) {
+        if let Some(c) = &self.ctl {
+            WORKER.with(|w| *w.borrow_mut() = None);
+            c.task_exit(&self.task, std::thread::panicking());
+        }
+    }
+}
+
+/// Inside a pass on a pool thread: a write to the output or to a temp file is about to happen
+pub fn io_point(op: &'static str) {
+    let w = WORKER.with(|w| w.borrow().clone());
+    if let Some((c, t)) = w {
+        c.task_io(&t, op);
+    }
+}
+
+pub fn coordinator_poll(done: usize, total: usize, in_drop: bool) {
+    if let Some(c) = current() {
+        c.coordinator_poll(done, total, in_drop);
+    }
+}
+
+pub fn coordinator_idle(millis: u64) -> bool {
+    match current() {
+        Some(c) => c.coordinator_idle(millis),
+        None => false,
+    }
+}
+
+pub fn result_received(o: &Outcome, path: &Path) {
+    if let Some(c) = current() {
+        c.result_received(o, path);
+    }
+}
+
+pub fn join(begin: bool) {
+    if let Some(c) = current() {
+        c.join(begin);
+    }
+}
+
+/// Seam for collections whose order is arbitrary
+pub fn order<T, F: Fn(&T) -> PathBuf>(
+    site: &'static str,
+    items: impl IntoIterator<Item = T>,
+    key: F,
+) -> Vec<T> {
+    let items: Vec<T> = items.into_iter().collect();
+    match current() {
+        None => items,
+        Some(c) => {
+            let keys = items.iter().map(&key).collect::<Vec<_>>();
+            let perm = c.order_paths(site, keys);
+            let mut slots: Vec<Option<T>> = items.into_iter().map(Some).collect();
+            let mut out: Vec<T> = perm
+                .into_iter()
+                .filter_map(|i| slots.get_mut(i).and_then(|s| s.take()))
+                .collect();
+            // a controller can only reorder: anything it did not name keeps its place at the end
+            out.extend(slots.into_iter().flatten());
+            out
+        }
+    }
+}
+
+/// Process one file in the final (execute) pass on the calling thread.
+///
+/// No coordinator, pool or dependency manager is involved. Used for reference runs.
+pub fn preprocess_one(
+    shell_cmd: &str,
+    base: &Path,
+    file: &Path,
+    mode: crate::Mode,
+    trailing_newline: bool,
+) -> Result<(), String> {
+    let shell = crate::fs::Shell::new(shell_cmd).map_err(|e| format!("{e:?}"))?;
+    let base = crate::fs::AbsPath::create_base(base.to_path_buf()).map_err(|e| format!("{e:?}"))?;
+    let file = base
+        .share_base(file.to_path_buf())
+        .map_err(|e| format!("{e:?}"))?;
+    crate::core::verif_preprocess(&shell, &file, mode, trailing_newline)
+}
